@@ -419,11 +419,67 @@ def _dedup(hs):
     return out
 
 
+TL = TypeVar('TL', bound=List[int])
+TCL = TypeVar('TCL', List[int], Tuple[str, ...])
+NTList = NewType('NTList', List[int])
+
+
+def special_hints():
+    """Shapes that a constructor-times-leaf grammar does not reach: overlapping union members,
+    unions of same-origin containers, nested literals, TypeVars / NewTypes over containers,
+    Annotated around and inside containers, ignorable mapping sides, class-object containers."""
+    v_eq1 = make_validator(('eq', 1))
+    v_p1 = make_validator(('is', P1))
+    v_inst = make_validator(('inst', int))
+    out = [
+        ('Union[int,bool]', Union[int, bool]), ('Union[bool,int,None]', Union[bool, int, None]),
+        ('Union[UA,UB]', Union[uc.UA, uc.UB]), ('Union[List[int],List[str]]', Union[List[int], List[str]]),
+        ('Union[List[int],Tuple[int,...]]', Union[List[int], Tuple[int, ...]]),
+        ('Union[Dict[str,int],Dict[int,str]]', Union[Dict[str, int], Dict[int, str]]),
+        ('Union[Tuple[()],Tuple[int]]', Union[Tuple[()], Tuple[int]]),
+        ('Union[Lit1,Lit_a_None,int]', Union[Literal[1], Literal['a', None], int]),
+        ('Optional[Union[int,List[Optional[str]]]]', Optional[Union[int, List[Optional[str]]]]),
+        ('Literal[Literal[1],2]', Literal[Literal[1], 2]), ('Literal[True,False]', Literal[True, False]),
+        ('Literal[b_a,a]', Literal[b'a', 'a']), ('Literal[ENum.ONE,EColor.R]', Literal[uc.ENum.ONE, uc.EColor.R]),
+        ('List[LitTrue1]', List[Literal[True, 1]]), ('Dict[Lit1,Lit_a_None]', Dict[Literal[1], Literal['a', None]]),
+        ('TL', TL), ('TCL', TCL), ('NTList', NTList), ('List[TB]', List[TB]), ('Dict[TC,TB]', Dict[TC, TB]),
+        ('List[NTInt]', List[NTInt]), ('Tuple[TB,TC]', Tuple[TB, TC]),
+        ('Annotated[List[int],P1]', Annotated[List[int], v_p1]),
+        ('List[Annotated[int,eq1]]', List[Annotated[int, v_eq1]]),
+        ('Annotated[Annotated[int,eq1],inst]', Annotated[Annotated[int, v_eq1], v_inst]),
+        ('Dict[str,Annotated[int,P1]]', Dict[str, Annotated[int, v_p1]]),
+        ('Annotated[Dict[str,int],P1,inst]', Annotated[Dict[str, int], v_p1, make_validator(('inst', dict))]),
+        ('Dict[Any,int]', Dict[Any, int]), ('Dict[str,object]', Dict[str, object]), ('Mapping[Any,Any]', Mapping[Any, Any]),
+        ('List[object]', List[object]), ('Tuple[Any,...]', Tuple[Any, ...]), ('Tuple[Any,int]', Tuple[Any, int]),
+        ('Set[TU]', Set[TU]), ('Iterable[Any]', Iterable[Any]),
+        ('type[Any]', Type[Any]), ('Type[object]', Type[object]), ('Type[TB]', Type[TB]), ('List[Type[int]]', List[Type[int]]),
+        ('Set[Type[UA]]', Set[Type[uc.UA]]), ('Dict[Type[int],int]', Dict[Type[int], int]),
+        ('Tuple[List[int],Dict[str,int]]', Tuple[List[int], Dict[str, int]]),
+        ('Tuple[Tuple[int,...],...]', Tuple[Tuple[int, ...], ...]), ('Tuple[Tuple[int,str],...]', Tuple[Tuple[int, str], ...]),
+        ('List[Tuple[()]]', List[Tuple[()]]), ('Dict[Tuple[int,str],List[int]]', Dict[Tuple[int, str], List[int]]),
+        ('abc.Mapping[str,abc.Sequence[int]]', cabc.Mapping[str, cabc.Sequence[int]]),
+        ('abc.Set[int]', cabc.Set[int]), ('abc.MutableMapping[int,int]', cabc.MutableMapping[int, int]),
+        ('collections.deque[int]', collections.deque[int]), ('collections.OrderedDict[str,int]', collections.OrderedDict[str, int]),
+        ('frozenset[str]', frozenset[str]), ('dict[str,list[int]]', dict[str, list[int]]), ('tuple[int,str]', tuple[int, str]),
+        ('type[int]', type[int]), ('list[int]|dict[str,int]', list[int] | dict[str, int]),
+        ('UGenList[List[int]]', uc.UGenList[List[int]]), ('List[UGenList[int]]', List[uc.UGenList[int]]),
+        ('UGenList2[str]', uc.UGenList2[str]), ('Union[UGenList[int],UGenList2[int]]', Union[uc.UGenList[int], uc.UGenList2[int]]),
+        ('Sequence[Sequence[Sequence[int]]]', Sequence[Sequence[Sequence[int]]]),
+        ('Dict[str,Dict[str,Dict[str,int]]]', Dict[str, Dict[str, Dict[str, int]]]),
+        ('List[Iterator[int]]', List[Iterator[int]]), ('Tuple[Iterable[int],int]', Tuple[Iterable[int], int]),
+        ('Union[Iterator[int],str]', Union[Iterator[int], str]), ('Optional[Iterable[Optional[int]]]', Optional[Iterable[Optional[int]]]),
+        ('ItemsView[str,List[int]]', ItemsView[str, List[int]]), ('KeysView[Tuple[int,...]]', KeysView[Tuple[int, ...]]),
+        ('Counter[Lit_a_None]', Counter[Literal['a', None]]), ('ChainMap[str,Optional[int]]', ChainMap[str, Optional[int]]),
+        ('DefaultDict[str,List[int]]', DefaultDict[str, List[int]]),
+    ]
+    return out
+
+
 def hint_set(tier, seed=0):
     if tier == 'quick':
-        hs = hints_depth1() + hints_depth2_curated() + annotated_hints(1, limit=120)
+        hs = hints_depth1() + special_hints() + hints_depth2_curated() + annotated_hints(1, limit=120)
     else:
-        hs = (hints_depth1() + hints_depth2_curated() + hints_depth2_full() + hints_depth3_reduced()
+        hs = (hints_depth1() + special_hints() + hints_depth2_curated() + hints_depth2_full() + hints_depth3_reduced()
               + annotated_hints(1) + seeded_hints(seed, 2000))
     return _dedup(hs)
 
